@@ -32,6 +32,11 @@ class C10Merge1D(Harness):
                         yield f"amount-M{M}-smallgap{g}", dict(M=M, mode="amount", inplace=False, axis=None, gap=g, kind="real", small=True)
                         yield f"minfreq-M{M}-smallgap{g}", dict(M=M, mode="minfreq", inplace=False, axis=None, gap=g, kind="real", small=True)
             yield f"fraction-M{M}", dict(M=M, mode="fraction", inplace=False, axis=0, gap=None, kind="int")
+            if M >= 3:
+                # integral amounts given as floats (2.0 merges pairs like 2 does), non-integral amounts above 2 are refused like 1.5
+                yield f"amount-M{M}-float2", dict(M=M, mode="amount", inplace=False, axis=None, gap=None, kind="real", aconst=2.0)
+                yield f"amount-M{M}-float3-inplace", dict(M=M, mode="amount", inplace=True, axis=0, gap=None, kind="int", aconst=3.0)
+                yield f"fraction-M{M}-2.5", dict(M=M, mode="fraction", inplace=False, axis=0, gap=None, kind="real", frac=2.5)
             if M in (2, 3):
                 # contents replaced through the public `frequencies` setter (floats into a histogram created with integer contents)
                 yield f"amount-M{M}-setter-floats", dict(M=M, mode="amount", inplace=False, axis=None, gap=None, kind="real", via_setter=True)
@@ -61,7 +66,7 @@ class C10Merge1D(Harness):
                     cx.assume(rising_pairs(L, R), tolerance_band(L, R))
                 for j in range(M - 1):
                     cx.assume(L[j + 1] > R[j] if j == p["gap"] else L[j + 1] == R[j])
-        if p["mode"] == "amount":
+        if p["mode"] == "amount" and "aconst" not in p:
             x["a"] = cx.pyint("a", 1, M + 1)
         elif p["mode"] == "minfreq":
             x["t"] = cx.pyfloat("t")
@@ -93,9 +98,9 @@ class C10Merge1D(Harness):
         if p["axis"] is not None:
             kw["axis"] = "ax" if p["axis"] == "name" else p["axis"]
         if p["mode"] == "amount":
-            r = E.attempt(h.merge_bins, x["a"], **kw)
+            r = E.attempt(h.merge_bins, p["aconst"] if "aconst" in p else x["a"], **kw)
         elif p["mode"] == "fraction":
-            r = E.attempt(h.merge_bins, 1.5, **kw)
+            r = E.attempt(h.merge_bins, p.get("frac", 1.5), **kw)
         else:
             r = E.attempt(h.merge_bins, min_frequency=x["t"], **kw)
         obs = {"before": before, "after": snap1d(E, h)}
@@ -121,7 +126,7 @@ class C10Merge1D(Harness):
             yield "unchanged_after_refusal", unchanged(obs["after"])
             return
         if p["mode"] == "amount":
-            a = cx.t(x["a"])
+            a = z3.IntVal(int(p["aconst"])) if "aconst" in p else cx.t(x["a"])
             # a run crosses the gap iff bins g and g+1 fall into the same run: g // a == (g+1) // a  <=>  (g+1) % a != 0
             crosses = z3.BoolVal(False) if p["gap"] is None else ((p["gap"] + 1) % a != 0)
             if raised is not None:
